@@ -23,7 +23,8 @@ FullDom(d) == ValsDom(d.prog, d.prog[d.root].fields, 1, IF d.kw = "small" THEN 0
 DataNames(d) == {d.prog[d.root].fields[i].name : i \in {j \in 1..Len(d.prog[d.root].fields) : d.prog[d.root].fields[j].k = "Data"}}
 BitsNames(d) == {d.prog[d.root].fields[i].name : i \in {j \in 1..Len(d.prog[d.root].fields) : d.prog[d.root].fields[j].k = "Bits"}}
 KwargsOf(d) ==
-    IF d.kw = "full" THEN FullDom(d)
+    IF d.kw = "given" THEN d.ks        \* the assignments are named explicitly (long values)
+    ELSE IF d.kw = "full" THEN FullDom(d)
     \* ... and assignments in which one bit field holds None: that pack fails half-way through the run
     ELSE IF d.kw = "fullbad" THEN FullDom(d) \cup {SetVal(full, n, NoneV) : full \in FullDom(d), n \in BitsNames(d)}
                                               \cup {SetVal(full, n, ListV(<<IntV(65)>>)) : full \in FullDom(d), n \in DataNames(d)}
@@ -78,6 +79,18 @@ U_C02(zz) ==
                              fm, IntV(0)), U1("z")>>)], "full", 1, FALSE) : fm \in {"chooses", "lambda"}}
     \cup {VDecl([C0 |-> Class([DefaultOpts EXCEPT !.endian = "little"], <<IntF("a", 2, FALSE, "default"), RefF("s", "C1"), BitsF("h", 4), BitsF("l", 12)>>),
                  C1 |-> Class(DefaultOpts, <<IntF("x", 2, FALSE, "default"), DataF("d", SzMarker(<<0>>, FALSE, TRUE))>>)], "full", 1, FALSE)}
+
+\* long values (named explicitly): a body of 65535 / 65534 bytes in front of a two-byte marker, 520 two-byte little-endian
+\* elements, 700 bytes in front of a one-byte marker
+VGiven(fields, ks) == V1(fields, "given", FALSE) @@ [ks |-> ks]
+KV(n, v) == [n |-> n, v |-> v]
+U_C02_Long(zz) ==
+    {VGiven(<<U1("a"), DataF("d", SzMarker(<<13, 10>>, FALSE, TRUE)), U1("z")>>,
+            {<<KV("a", IntV(7)), KV("d", BytesV(RepB(65, k))), KV("z", IntV(9))>> : k \in {65534, 65535}}),
+     VGiven(<<IntF("n", 2, FALSE, "default"), RepCountF("r", IntF("e", 2, FALSE, "little"), SzField("n"), NoCond, 0), U1("z")>>,
+            {<<KV("n", IntV(520)), KV("r", ListV([i \in 1..520 |-> IntV(256 + (i % 7))])), KV("z", IntV(9))>>}),
+     VGiven(<<U1("a"), DataF("d", SzMarker(<<10>>, FALSE, TRUE)), IntF("z", 2, FALSE, "default")>>,
+            {<<KV("a", IntV(7)), KV("d", BytesV(RepB(65, 700))), KV("z", IntV(9))>>})}
 
 \* positioned fields, a later-declared one placed before an earlier one; state kept between two packs
 U_C02_Pos(zz) ==
@@ -210,6 +223,7 @@ PickUV(n) ==
       [] n = "UV_Smoke" -> UV_Smoke(0)
       [] n = "U_C02" -> U_C02(0)
       [] n = "U_C02_Pos" -> U_C02_Pos(0)
+      [] n = "U_C02_Long" -> U_C02_Long(0)
       [] n = "U_C03V" -> U_C03V(0)
       [] n = "U_C07V" -> U_C07V(0)
       [] n = "U_C20" -> U_C20(0)
